@@ -299,7 +299,7 @@ theorem rt_leafKind (T : List Desc) (n : Nat) (k : String) (d : Desc) (o : Obj)
     rt T (n + 2) (.kind k) (.obj o) = .ok (.obj (flatRT d o)) := by
   simp only [leafKind, Bool.and_eq_true, beq_iff_eq, List.all_eq_true, List.isEmpty_iff] at hl
   obtain ⟨⟨ht, hs⟩, hp⟩ := hl
-  have hpost : applyPost d o = o := by simp [applyPost, hp]
+  have hpost : applyPost d o = o := by simp [applyPost, dateTrimHit, hp]
   have hshape : ∀ g, shapeOfGo d g = .leaf := by
     intro g
     unfold shapeOfGo
@@ -310,11 +310,9 @@ theorem rt_leafKind (T : List Desc) (n : Nat) (k : String) (d : Desc) (o : Obj)
     apply marshalDeep_of_children_fixed
     intro m _ _
     rw [hshape]
-    rw [rt]
     rfl
-  rw [rt]
-  simp only [hf, ht, hpost, hchild]
-  rfl
+  show rtStep T (rt T (n + 1)) (.kind k) (.obj o) = _
+  simp only [rtStep, stepKind, hf, ht, hpost, hchild, Res.wrap, flatRT]
 
 /-- … hence for those kinds the deep round trip is stable: a second trip changes no key. -/
 theorem rt_leafKind_stable (T : List Desc) (n : Nat) (k : String) (d : Desc) (o : Obj)
@@ -377,7 +375,15 @@ def schemaDesc : Desc := (findDesc descriptors "openapi3.Schema").getD default
 theorem dateTrim_witness :
     let o : Obj := [("format", .str "date"), ("example", .str "2020-01-02T00:00:00Z")]
     dateTrimHit schemaDesc o = true ∧ normalObjB schemaDesc o = true ∧
-    (match lookup "example" (applyPost schemaDesc o) with | some (.str e) => e == "2020-01-02" | _ => false) = true := by
+    (match lookup "example" (applyPost schemaDesc o) with | some (.str e) => e == "2020-01-02" | _ => false) = true ∧
+    -- and a second reload changes it again when the suffix occurs twice: the first output is not stable
+    (let o2 : Obj := [("format", .str "date"), ("example", .str "2020T00:00:00ZT00:00:00Z")]
+     (match rt descriptors 8 (.kind "openapi3.Schema") (.obj o2) with
+      | .ok (.obj [("example", .str e1), ("format", _)]) =>
+        (match rt descriptors 8 (.kind "openapi3.Schema") (.obj [("example", .str e1), ("format", .str "date")]) with
+         | .ok (.obj [("example", .str e2), ("format", _)]) => e1 == "2020T00:00:00Z" && e2 == "2020"
+         | _ => false)
+      | _ => false) = true) := by
   decide
 
 /-- F-C03-4 (repaired by 2f6387f, former class EmptyTypeList): `type: []` is omitted by the three marshallers
